@@ -2,6 +2,7 @@ package main
 
 import (
 	"go/token"
+	"go/types"
 	"strings"
 
 	"golang.org/x/tools/go/ssa"
@@ -25,6 +26,7 @@ func runC24(w *World, r *Report) {
 	r.Rule("R-C24-1", "call-site protocol: every ValidatePassword call (also through a thin wrapper) is behind CheckRateLimit's not-locked edge on the same user value, and its false / true outcome leads to RecordFailure / RecordSuccess before any return", 6)
 	r.Rule("R-C24-2", "guarded-by and keying: loginAttempts is accessed only with loginAttemptsMu held and only with a key derived from strings.ToLower(username parameter)", 5)
 	r.Rule("R-C24-3", "zero limit: in CheckRateLimit and RecordFailure every access to the attempts table is unreachable once the 'limit != 0' edge is removed", 2)
+	r.Rule("R-C24-7", "the limit 0 (lockout disabled) is never a parse failure in disguise: every value getMaxAttempts returns is a non-zero constant or the number of a (value, error) parse returned only behind that error == nil; a helper that returns a bare int is followed (3 levels)", 2)
 	r.Rule("R-C24-6", "the lockout deadline RecordFailure stores is computed from time.Now() of that call, never from a time kept in the attempt record", 1)
 	r.Rule("R-C24-4", "the lockout deadline is stored only on an edge establishing failures >= limit (or >), never on an equality; RecordSuccess deletes the user's record on every path", 2)
 
@@ -317,6 +319,13 @@ func runC24(w *World, r *Report) {
 		}
 	}
 
+	// ---- R-C24-7 the limit is a checked parse
+	if fn := w.ssaFunc(rp, "getMaxAttempts"); fn == nil {
+		r.Anchor("R-C24-7", "router.getMaxAttempts")
+	} else {
+		c24LimitSources(w, r, fn, "router.getMaxAttempts", 0, map[*ssa.Function]bool{})
+	}
+
 	// ---- R-C24-4
 	if fn := w.ssaFunc(rp, "RecordFailure"); fn != nil {
 		isFailures := func(v ssa.Value) bool { return isFieldNamed(v, "failures") }
@@ -512,5 +521,118 @@ func c24LockedIsPositive(w *World, r *Report) {
 
 	if n == 0 {
 		r.Anchor("R-C24-5", "a return of CheckRateLimit behind the lockout-deadline test")
+	}
+}
+
+// c24LimitSources classifies every value fn can return (first result).
+func c24LimitSources(w *World, r *Report, fn *ssa.Function, via string, depth int, seen map[*ssa.Function]bool) {
+	if seen[fn] {
+		return
+	}
+
+	seen[fn] = true
+	n := 0
+
+	for _, b := range fn.Blocks {
+		if len(b.Instrs) == 0 {
+			continue
+		}
+
+		ret, ok := b.Instrs[len(b.Instrs)-1].(*ssa.Return)
+		if !ok || len(ret.Results) == 0 {
+			continue
+		}
+
+		var leaves []ssa.Value
+
+		visited := map[ssa.Value]bool{}
+
+		var collect func(v ssa.Value)
+
+		collect = func(v ssa.Value) {
+			if visited[v] {
+				return
+			}
+
+			visited[v] = true
+
+			switch x := v.(type) {
+			case *ssa.Phi:
+				for _, e := range x.Edges {
+					collect(e)
+				}
+			case *ssa.Convert:
+				collect(x.X)
+			case *ssa.ChangeType:
+				collect(x.X)
+			default:
+				leaves = append(leaves, v)
+			}
+		}
+
+		collect(retResult(ret, 0))
+
+		for _, lv := range leaves {
+			n++
+			key := via + "|limit source " + valueName(lv)
+			if n > 1 {
+				key += " #" + sprintInt(n)
+			}
+
+			pos := w.pos(lv.Pos())
+			if lv.Pos() == token.NoPos {
+				pos = w.pos(ret.Pos())
+			}
+
+			if k, isC := constInt(lv); isC {
+				if k != 0 {
+					r.Discharge("R-C24-7", key, pos, "non-zero constant")
+				} else {
+					r.Violate("R-C24-7", key, pos, "a constant 0 is returned as the limit: lockout is switched off without the setting saying so")
+				}
+
+				continue
+			}
+
+			if ex, isEx := lv.(*ssa.Extract); isEx && ex.Index == 0 {
+				call, isCall := ex.Tuple.(*ssa.Call)
+				sig := (*types.Tuple)(nil)
+
+				if isCall {
+					sig = call.Common().Signature().Results()
+				}
+
+				if isCall && sig.Len() == 2 && isErrorType(sig.At(1).Type()) {
+					cuts := cutEdges(fn, func(f Fact) bool {
+						if f.Kind != "nil" {
+							return false
+						}
+
+						e2, ok := f.V.(*ssa.Extract)
+
+						return ok && e2.Tuple == ex.Tuple && e2.Index == 1
+					})
+
+					if len(cuts) > 0 && !instrReachableAfterCut(fn, ret, cuts) {
+						r.Discharge("R-C24-7", key, pos, "returned only behind err == nil of "+callID(call.Common()))
+					} else {
+						r.Violate("R-C24-7", key, pos, "the number parsed by "+callID(call.Common())+" is returned without its error being nil: a text that is not a number reads as 0, and 0 switches the lockout off")
+					}
+
+					continue
+				}
+			}
+
+			if call, isCall := lv.(*ssa.Call); isCall {
+				if callee := call.Common().StaticCallee(); callee != nil && len(callee.Blocks) > 0 && depth < 3 {
+					r.Discharge("R-C24-7", key, pos, "followed into "+fnKey(callee))
+					c24LimitSources(w, r, callee, via+" -> "+fnKey(callee), depth+1, seen)
+
+					continue
+				}
+			}
+
+			r.Violate("R-C24-7", key, pos, "the limit comes from a value the analysis cannot show to be a checked parse")
+		}
 	}
 }
